@@ -432,7 +432,7 @@ theorem sim_stepOpBasic {w : World} {j : JState} (h : RP w j) (ha : opAllowed j 
         simp only [stepOpBasic]; rw [if_pos hc]
       rw [hst]
       exact stepOK_one (by decide) (by simp only [judge1]; rw [if_neg (by rw [hc']; decide)]) h (Frame.refl j)
-    · have hst : stepOpBasic w self (.dest t) = (destructLeaf w t, [.dest self t], if t = self then .stop else .ok) := by
+    · have hst : stepOpBasic w self (.dest t) = (destructLeaf w t, [.dest self t], if (destructLeaf w t).alive self then .ok else .stop) := by
         simp only [stepOpBasic]; rw [if_neg hc]
       simp only [Bool.not_eq_true] at hc
       have hat : w.alive t = true := by cases hx : w.alive t <;> simp_all
@@ -688,8 +688,8 @@ theorem sim_stepOp {w : World} {j : JState} (h : RP w j) (ha : opAllowed j = tru
         obtain ⟨hR2, hF2⟩ := sim_destLeaf hR1 t hat
         simp only [if_true]
         unfold StepOK
-        have hne : ((if t = self then Status.stop else Status.ok) = Status.err) = False := by
-          split <;> simp
+        have hne : ∀ b : Bool, ((if b = true then Status.ok else Status.stop) = Status.err) = False := by
+          intro b; cases b <;> simp
         simp only [hne, if_false, List.foldl_append, List.foldl_cons, List.foldl_nil]
         have hjd : judge1 ((hooksPhase w t).2.foldl judge1 j) (.dest self t) =
             { jDisable ((hooksPhase w t).2.foldl judge1 j) t with dead := t :: ((hooksPhase w t).2.foldl judge1 j).dead } := by
@@ -700,8 +700,8 @@ theorem sim_stepOp {w : World} {j : JState} (h : RP w j) (ha : opAllowed j = tru
         have hjt : ((hooksPhase w t).2.foldl judge1 j).alive t = false := by rw [← hal1, hat]
         simp only [Bool.false_eq_true, if_false]
         unfold StepOK
-        have hne : ((if t = self then Status.stop else Status.ok) = Status.err) = False := by
-          split <;> simp
+        have hne : ∀ b : Bool, ((if b = true then Status.ok else Status.stop) = Status.err) = False := by
+          intro b; cases b <;> simp
         simp only [hne, if_false, List.foldl_append, List.foldl_cons, List.foldl_nil]
         have hjd : judge1 ((hooksPhase w t).2.foldl judge1 j) (.destGone self t) = (hooksPhase w t).2.foldl judge1 j := by
           simp [judge1, hjt]
